@@ -64,8 +64,17 @@ class HDFDatabase:
     membership.
     """
 
+    __last_export_target: tuple[str, str] | None
+    """The file path and the HDF node path of the last export, if any.
+
+    The buffer of pending arrays is relative to this target only:
+    when appending to another file or node,
+    all the entries of the database have to be considered.
+    """
+
     def __init__(self) -> None:  # noqa:D107
         self.__pending_arrays = {}
+        self.__last_export_target = None
 
     @staticmethod
     def __to_real(data: ArrayLike) -> ndarray:
@@ -374,6 +383,7 @@ class HDFDatabase:
                 the database should be exported.
                 If empty, the root node is considered.
         """
+        export_target = (str(file_path), hdf_node_path)
         with h5py.File(file_path, "a" if append else "w") as h5file:
             if hdf_node_path:
                 h5file = h5file.require_group(hdf_node_path)
@@ -395,7 +405,15 @@ class HDFDatabase:
                     value: key for key, value in enumerate(database.keys())
                 }
 
-                for input_values in self.__pending_arrays.values():
+                if export_target == self.__last_export_target:
+                    arrays_to_export = self.__pending_arrays.values()
+                else:
+                    # The pending arrays are the ones stored since the last export,
+                    # which was done to another file or node:
+                    # this file may miss other entries or outputs.
+                    arrays_to_export = database.keys()
+
+                for input_values in arrays_to_export:
                     output_values = database[input_values]
                     index_dataset = input_values_to_idx[input_values]
 
@@ -431,6 +449,7 @@ class HDFDatabase:
                 input_space.to_hdf(file_path, append=True, hdf_node_path=hdf_node_path)
 
         self.__pending_arrays.clear()
+        self.__last_export_target = export_target
 
     @staticmethod
     def update_from_file(
